@@ -129,7 +129,7 @@ func runC06(c *Ctx) {
 	if m.Pkg == nil {
 		return
 	}
-	info := m.Pkg.TypesInfo
+	_ = m.Pkg.TypesInfo
 
 	// queryWithNetwork itself
 	qwn := p.Func("(*internal/persistence/sql.Persister).queryWithNetwork")
@@ -246,128 +246,7 @@ func runC06(c *Ctx) {
 	}
 	r.Floor("R06.1", 5, "queryWithNetwork + GetRelationTuples, Exists, DeleteAll, rewrite traversal")
 
-	// R06.2 / R06.3 raw statements
-	for _, rs := range m.Raw {
-		fd := core.FuncDecl(m.Pkg, strings.Trim(strings.Replace(strings.Replace(rs.Fn, "(*", "", 1), ")", "", 1), "()"))
-		fname := sqlPkgRel + "." + rs.Fn
-		construct := "raw statement"
-		if rs.Builder != "" {
-			construct = "raw statement built by " + rs.Builder
-		}
-		if len(rs.Errs) > 0 || len(rs.Samples) == 0 {
-			r.Undecide("R06.2", fname, construct, p.Pos(rs.Site), "cannot evaluate/parse the statement: "+strings.Join(rs.Errs, "; "))
-			continue
-		}
-		var bad []string
-		table := ""
-		kind := ""
-		nidParam := map[string]bool{} // builder parameters bound to nid
-		for i, st := range rs.Parsed {
-			if st == nil {
-				continue
-			}
-			smp := rs.Samples[i]
-			table, kind = st.Table, st.Kind
-			if st.Table != tupleTable {
-				continue
-			}
-			switch st.Kind {
-			case "INSERT":
-				idx := -1
-				for ci, col := range st.Columns {
-					if col == "nid" {
-						idx = ci
-					}
-				}
-				if idx < 0 {
-					bad = append(bad, "INSERT has no nid column ["+smp.Desc+"]")
-					continue
-				}
-				for ri, row := range st.Rows {
-					if idx >= len(row) || row[idx].Kind != "?" {
-						bad = append(bad, "nid is not a bound placeholder")
-						continue
-					}
-					arg := smp.Args[row[idx].QIdx]
-					par, why := nidSourceOf(m, rs, arg)
-					if par == "" {
-						bad = append(bad, fmt.Sprintf("row %d: nid column receives %s: %s", ri, types.ExprString(arg), why))
-					} else {
-						nidParam[par] = true
-					}
-				}
-			case "DELETE", "SELECT":
-				alias := st.Alias
-				found := false
-				for _, cj := range st.Where.Conjuncts() {
-					if cj.Op == "atom" && core.BaseColumn(cj.Left) == "nid" && cj.Cmp == "=" && cj.Right == "?" && (alias == "" || strings.HasPrefix(cj.Left, alias+".") || !strings.Contains(cj.Left, ".")) {
-						arg := smp.Args[cj.QIdx]
-						par, why := nidSourceOf(m, rs, arg)
-						if par == "" {
-							bad = append(bad, fmt.Sprintf("nid = ? is bound to %s: %s [%s]", types.ExprString(arg), why, smp.Desc))
-						} else {
-							nidParam[par] = true
-							found = true
-						}
-					}
-				}
-				if !found {
-					bad = append(bad, "no top-level AND-conjunct 'nid = ?' in the WHERE clause (a nid test under OR does not scope the statement) ["+smp.Desc+"]")
-				}
-				for _, sub := range st.Subs {
-					if sub.Table != tupleTable {
-						continue
-					}
-					okSub := false
-					for _, cj := range sub.Where.Conjuncts() {
-						if cj.Op == "atom" && core.BaseColumn(cj.Left) == "nid" && cj.Cmp == "=" {
-							if alias != "" && cj.Right == alias+".nid" {
-								okSub = true
-							}
-						}
-					}
-					if !okSub {
-						bad = append(bad, "a sub-select on the relationship table does not correlate nid with the outer row: it sees rows of every network ["+smp.Desc+"]")
-					}
-				}
-			}
-		}
-		if table != tupleTable {
-			// mapping table statements: R06.4 keyed by ids (INSERT of derived ids)
-			if table == mappingTable && kind == "INSERT" {
-				r.Discharge("R06.4", fname, construct, p.Pos(rs.Site), "INSERT into the mapping table; the ids are UUIDv5 of the network (see the UUIDv5 namespace obligation)")
-			} else {
-				r.Undecide("R06.2", fname, construct, p.Pos(rs.Site), "raw statement on an unrecognised table "+table)
-			}
-			continue
-		}
-		// builder parameters must be NetworkID(ctx) of the ctx in scope at each call site
-		for par := range nidParam {
-			if par == "<call-site>" {
-				continue
-			}
-			for _, bc := range rs.BuilderCalls {
-				arg := bc.Args[par]
-				ctxObj, isNID := isNetworkIDCall(info, arg)
-				inScope := innermostCtx(info, bc.Decl, bc.Pos)
-				if !isNID {
-					bad = append(bad, fmt.Sprintf("%s passes %s as the network id of %s (not NetworkID(ctx) of the request)", bc.Fn, exprStr(arg), rs.Builder))
-				} else if ctxObj != nil && inScope != nil && ctxObj != inScope {
-					bad = append(bad, fmt.Sprintf("%s evaluates NetworkID on a context other than the one in scope", bc.Fn))
-				}
-			}
-		}
-		rule := "R06.2"
-		if kind == "INSERT" {
-			rule = "R06.3"
-		}
-		_ = fd
-		if len(bad) > 0 {
-			r.Violate(rule, fname, construct, p.Pos(rs.Site), strings.Join(dedupe(bad), "; "), sampleSQL(rs)...)
-		} else {
-			r.Discharge(rule, fname, construct, p.Pos(rs.Site), fmt.Sprintf("%s on %s: network scoped in all %d instantiations; bound to NetworkID(ctx) at %d call site(s)", kind, table, len(rs.Samples), len(rs.BuilderCalls)), sampleSQL(rs)...)
-		}
-	}
+	rawNetworkScope(c, m, "R06.2", "R06.3")
 	r.Floor("R06.2", 2, "DELETE builder, traversal SELECT")
 	r.Floor("R06.3", 1, "INSERT builder")
 
@@ -570,3 +449,132 @@ func variadicElems(v ssa.Value) []ssa.Value {
 }
 
 var _ = token.NoPos
+
+// rawNetworkScope checks every raw statement on the relationship table for the
+// network-id conjunct and its binding (shared by C06 and C04).
+func rawNetworkScope(c *Ctx, m *SQLModel, ruleWhere, ruleInsert string) {
+	p, r := c.P, c.R
+	info := m.Pkg.TypesInfo
+	// R06.2 / R06.3 raw statements
+	for _, rs := range m.Raw {
+		fd := core.FuncDecl(m.Pkg, strings.Trim(strings.Replace(strings.Replace(rs.Fn, "(*", "", 1), ")", "", 1), "()"))
+		fname := sqlPkgRel + "." + rs.Fn
+		construct := "raw statement"
+		if rs.Builder != "" {
+			construct = "raw statement built by " + rs.Builder
+		}
+		if len(rs.Errs) > 0 || len(rs.Samples) == 0 {
+			r.Undecide(ruleWhere, fname, construct, p.Pos(rs.Site), "cannot evaluate/parse the statement: "+strings.Join(rs.Errs, "; "))
+			continue
+		}
+		var bad []string
+		table := ""
+		kind := ""
+		nidParam := map[string]bool{} // builder parameters bound to nid
+		for i, st := range rs.Parsed {
+			if st == nil {
+				continue
+			}
+			smp := rs.Samples[i]
+			table, kind = st.Table, st.Kind
+			if st.Table != tupleTable {
+				continue
+			}
+			switch st.Kind {
+			case "INSERT":
+				idx := -1
+				for ci, col := range st.Columns {
+					if col == "nid" {
+						idx = ci
+					}
+				}
+				if idx < 0 {
+					bad = append(bad, "INSERT has no nid column ["+smp.Desc+"]")
+					continue
+				}
+				for ri, row := range st.Rows {
+					if idx >= len(row) || row[idx].Kind != "?" {
+						bad = append(bad, "nid is not a bound placeholder")
+						continue
+					}
+					arg := smp.Args[row[idx].QIdx]
+					par, why := nidSourceOf(m, rs, arg)
+					if par == "" {
+						bad = append(bad, fmt.Sprintf("row %d: nid column receives %s: %s", ri, types.ExprString(arg), why))
+					} else {
+						nidParam[par] = true
+					}
+				}
+			case "DELETE", "SELECT":
+				alias := st.Alias
+				found := false
+				for _, cj := range st.Where.Conjuncts() {
+					if cj.Op == "atom" && core.BaseColumn(cj.Left) == "nid" && cj.Cmp == "=" && cj.Right == "?" && (alias == "" || strings.HasPrefix(cj.Left, alias+".") || !strings.Contains(cj.Left, ".")) {
+						arg := smp.Args[cj.QIdx]
+						par, why := nidSourceOf(m, rs, arg)
+						if par == "" {
+							bad = append(bad, fmt.Sprintf("nid = ? is bound to %s: %s [%s]", types.ExprString(arg), why, smp.Desc))
+						} else {
+							nidParam[par] = true
+							found = true
+						}
+					}
+				}
+				if !found {
+					bad = append(bad, "no top-level AND-conjunct 'nid = ?' in the WHERE clause (a nid test under OR does not scope the statement) ["+smp.Desc+"]")
+				}
+				for _, sub := range st.Subs {
+					if sub.Table != tupleTable {
+						continue
+					}
+					okSub := false
+					for _, cj := range sub.Where.Conjuncts() {
+						if cj.Op == "atom" && core.BaseColumn(cj.Left) == "nid" && cj.Cmp == "=" {
+							if alias != "" && cj.Right == alias+".nid" {
+								okSub = true
+							}
+						}
+					}
+					if !okSub {
+						bad = append(bad, "a sub-select on the relationship table does not correlate nid with the outer row: it sees rows of every network ["+smp.Desc+"]")
+					}
+				}
+			}
+		}
+		if table != tupleTable {
+			// mapping table statements: R06.4 keyed by ids (INSERT of derived ids)
+			if table == mappingTable && kind == "INSERT" {
+				r.Discharge(ruleInsert, fname, construct, p.Pos(rs.Site), "INSERT into the mapping table; the ids are UUIDv5 of the network (see the UUIDv5 namespace obligation)")
+			} else {
+				r.Undecide(ruleWhere, fname, construct, p.Pos(rs.Site), "raw statement on an unrecognised table "+table)
+			}
+			continue
+		}
+		// builder parameters must be NetworkID(ctx) of the ctx in scope at each call site
+		for par := range nidParam {
+			if par == "<call-site>" {
+				continue
+			}
+			for _, bc := range rs.BuilderCalls {
+				arg := bc.Args[par]
+				ctxObj, isNID := isNetworkIDCall(info, arg)
+				inScope := innermostCtx(info, bc.Decl, bc.Pos)
+				if !isNID {
+					bad = append(bad, fmt.Sprintf("%s passes %s as the network id of %s (not NetworkID(ctx) of the request)", bc.Fn, exprStr(arg), rs.Builder))
+				} else if ctxObj != nil && inScope != nil && ctxObj != inScope {
+					bad = append(bad, fmt.Sprintf("%s evaluates NetworkID on a context other than the one in scope", bc.Fn))
+				}
+			}
+		}
+		rule := ruleWhere
+		if kind == "INSERT" {
+			rule = ruleInsert
+		}
+		_ = fd
+		if len(bad) > 0 {
+			r.Violate(rule, fname, construct, p.Pos(rs.Site), strings.Join(dedupe(bad), "; "), sampleSQL(rs)...)
+		} else {
+			r.Discharge(rule, fname, construct, p.Pos(rs.Site), fmt.Sprintf("%s on %s: network scoped in all %d instantiations; bound to NetworkID(ctx) at %d call site(s)", kind, table, len(rs.Samples), len(rs.BuilderCalls)), sampleSQL(rs)...)
+		}
+	}
+}
